@@ -7,6 +7,7 @@ from ..loops import dotted, find_env_loop, strip_wrappers
 from ..nf import NF, Scope, Poly, parse_expr
 from ..repo import Repo, loc, short, AnalysisError, positional_params, param_names, bind_call
 from ..resolve import Resolver
+from ..sem import same_ingredients
 from ..identity import _project_expr
 from ..cfg import Def
 
@@ -55,6 +56,8 @@ def formula(ck, repo, nf, rule, q, spec, key="formula", self_class=None):
         got = nf.return_poly(q, env)
     want = nf.poly(parse_expr(spec), Scope(None, fn._module, env, qual, self_class=self_class), None)
     ok = got == want
+    if not ok and ("φ(" in got.canon() or not same_ingredients(got, want, ("minimum", "maximum", "clip", "where", "abs"))):
+        raise AnalysisError(f"{qual}: `{got.canon()[:120]}` is not written with the documented building blocks / depends on a branch (unrecognised form)")
     ck.ob(rule, qual, key, ok, f"{got.canon()[:170]}", "" if ok else f"differs from the documented formula `{want.canon()[:170]}`", loc(fn._module, fn))
     return got
 
@@ -182,260 +185,282 @@ def run(ck, repo: Repo, tier: str):
     SA, STA = "rl_blox.algorithm.ddpg.sample_actions", "rl_blox.algorithm.td3.sample_target_actions"
     formula(ck, repo, nf, "R2-noise-law", SA, "jnp.clip(policy(obs) + exploration_noise * action_scale * jax.random.normal(key, policy(obs).shape), action_low, action_high)")
     formula(ck, repo, nf, "R2-noise-law", STA, "jnp.clip(policy(obs) + jnp.clip(exploration_noise * action_scale * jax.random.normal(key, policy(obs).shape), -(action_scale * noise_clip), action_scale * noise_clip), action_low, action_high)")
-    # clip domination: the outermost operation of the returned value
-    for q in (SA, STA):
+    def _section_1():
+        # clip domination: the outermost operation of the returned value
+        for q in (SA, STA):
+            fn = repo.func(q)
+            got = nf.return_poly(q, _env(fn))
+            a = got.single_atom() or ""
+            m = nf.meta.get(a, {})
+            a3 = [x.canon() for x in m.get("args", [])]
+            ok = m.get("fn") == "clip" and len(a3) == 3 and a3[2] == "action_high" and "action_low" in a3[:2]
+            ck.ob("R1-clip-domination", q, "returns-clip(low,high)", ok, f"return {a[:120]}", "" if ok else "the returned action is not clip(., action_low, action_high): it can leave the action space", loc(fn._module, fn))
+    ck.guard(_section_1)
+    def _section_2():
+        # factories
+        for fq, target, extra in (("rl_blox.algorithm.ddpg.make_sample_actions", SA, ["exploration_noise"]), ("rl_blox.algorithm.td3.make_sample_target_actions", STA, ["exploration_noise", "noise_clip"])):
+            fn = repo.func(fq)
+            mi = fn._module
+            cfg = nf.cfg_of(fn)
+            rets = [n for n in cfg.nodes if n.kind == "stmt" and isinstance(n.ast, ast.Return)]
+            t = res.resolve(rets[0].ast.value, mi, res.cfg_of(fn), res.cfg_of(fn).node_of(rets[0].ast).id)
+            ok = t is not None and t.qual == target
+            if t is None:
+                raise AnalysisError(f"{fq}: the returned sampler `{short(rets[0].ast.value, 60)}` cannot be resolved to a function (unrecognised form)")
+            ck.ob("R1-clip-domination", fq, "wraps-sampler", ok, f"returns {short(rets[0].ast.value, 60)}", "" if ok else f"factory must return a partial of {target.rsplit('.', 1)[1]}", loc(mi, fn))
+            if not ok:
+                continue
+            sc = Scope(cfg, mi, _env(fn), fq)
+            got = [nf.poly(a, sc, rets[0].id).canon() for a in t.prefix]
+            want = [nf.poly(parse_expr(x), Scope(None, mi, _env(fn), fq), None).canon() for x in ["action_space.low", "action_space.high", "0.5 * (action_space.high - action_space.low)"] + extra]
+            ok = got == want
+            ck.ob("R1-clip-domination", fq, "bound-arguments", ok, f"partial({target.rsplit('.', 1)[1]}, {', '.join(got)[:140]})",
+                  "" if ok else f"must bind (low, high, 0.5*(high-low), {', '.join(extra)}) in this order: got {got}", loc(mi, rets[0].ast))
+    ck.guard(_section_2)
+    def _section_3():
+        # loops: provenance of the env.step argument
+        for lq in LOOPS:
+            L = find_env_loop(repo, lq)
+            cfg, mi = L.cfg, L.mi
+            arg = strip_wrappers(L.step_call.args[0])
+            ck.need(isinstance(arg, ast.Name), f"{lq}: env.step argument is not a variable")
+            ds = cfg.defs_of(L.step_node, arg.id)
+            ck.need(ds, f"{lq}: action has no definition")
+            # follow value-preserving wrappers and single-definition locals to the producing call
+            work, ds2, seen_d = list(ds), [], set()
+            while work:
+                d = work.pop()
+                if (d.node, d.name) in seen_d:
+                    continue
+                seen_d.add((d.node, d.name))
+                if d.kind == "unpack" and d.value is not None and d.path:
+                    pv = _project_expr(d.value, d.path)
+                    if pv is not None:
+                        d = Def(d.node, d.name, "assign", pv, ())
+                v = strip_wrappers(d.value) if d.value is not None else None
+                if isinstance(v, ast.Name) and d.kind == "assign":
+                    inner = cfg.defs_of(d.node, v.id)
+                    if inner and all(x.kind in ("assign", "unpack") for x in inner):
+                        work += inner
+                        continue
+                ds2.append(d)
+            for d in ds2:
+                v = strip_wrappers(d.value) if d.value is not None else None
+                where = loc(mi, cfg.nodes[d.node].ast)
+                if isinstance(v, ast.Call) and dotted(v.func) == f"{L.env}.action_space.sample":
+                    ck.ob("R1-clip-domination", lq, "step-arg:space-sample", True, f"{arg.id} = {short(d.value, 60)}", "", where)
+                    continue
+                ok, why = False, "the action passed to env.step is neither the seeded space sample nor the clipped sampler's result"
+                if isinstance(v, ast.Call):
+                    t = res.resolve(v.func, mi, cfg, d.node)
+                    if t is not None and t.qual == SA:
+                        fac = getattr(t, "factory", None)
+                        if fac is not None and fac[0] == "rl_blox.algorithm.ddpg.make_sample_actions":
+                            a0 = fac[1].args[0] if fac[1].args else None
+                            ok = a0 is not None and ast.unparse(a0) == f"{L.env}.action_space"
+                            why = "" if ok else f"the sampler is built for `{ast.unparse(a0) if a0 is not None else None}`, not for {L.env}.action_space"
+                        else:
+                            why = "sample_actions is not bound through make_sample_actions(env.action_space, ...)"
+                ck.ob("R1-clip-domination", lq, "step-arg:clipped-sampler", ok, f"{arg.id} = {short(d.value, 70)}", why, where)
+            # no redefinition of the action between sampler and step is implied by reaching definitions
+        ck.floor("continuous-loops", len(LOOPS), 5)
+    ck.guard(_section_3)
+    def _section_4():
+        # PETS loop
+        L = find_env_loop(repo, "rl_blox.algorithm.pets.train_pets")
+        arg = strip_wrappers(L.step_call.args[0])
+        def _leaves(e, at, depth=0):
+            e = strip_wrappers(e)
+            if depth > 8:
+                return [(e, at)]
+            if isinstance(e, ast.IfExp):
+                return _leaves(e.body, at, depth + 1) + _leaves(e.orelse, at, depth + 1)
+            if isinstance(e, ast.Name):
+                out_ = []
+                for d_ in L.cfg.defs_of(at, e.id):
+                    v_ = _project_expr(d_.value, d_.path) if d_.kind == "unpack" and d_.value is not None else d_.value
+                    if d_.kind in ("assign", "unpack") and v_ is not None:
+                        out_ += _leaves(v_, d_.node, depth + 1)
+                    else:
+                        out_.append((e, at))
+                return out_
+            return [(e, at)]
+        scp = Scope(L.cfg, L.mi, {"env": Poly.atom("env")}, L.qual)
+        for e_, at_ in _leaves(arg, L.step_node):
+            ok = False
+            if isinstance(e_, ast.Call) and isinstance(e_.func, ast.Attribute) and e_.func.attr == "sample" and not e_.args:
+                ok = nf.poly(e_.func.value, scp, at_).canon() in (f"{L.env}.action_space", "env.action_space")
+            elif isinstance(e_, ast.Call):
+                t_ = res.resolve(e_.func, L.mi, L.cfg, at_)
+                ok = t_ is not None and t_.qual == "rl_blox.algorithm.pets.mpc_action"
+            ck.ob("R5-planning-chain", L.qual, "step-arg", ok, f"{arg.id} <- {short(e_, 70)}", "" if ok else "PETS must execute the space sample (warm-up) or the planner's action", loc(L.mi, e_))
+    ck.guard(_section_4)
+
+    def _section_5():
+        # R3 tanh heads
+        PH = "rl_blox.blox.function_approximator.policy_head."
+        formula(ck, repo, nf, "R3-tanh-head", "scale_output", "nnx.tanh(y) * jnp.broadcast_to(self.action_scale.value, y.shape) + jnp.broadcast_to(self.action_bias.value, y.shape)", self_class=PH + "DeterministicTanhPolicy")
+        formula(ck, repo, nf, "R3-tanh-head", "__call__", "nnx.tanh(self.policy_net(observation)) * jnp.broadcast_to(self.action_scale.value, self.policy_net(observation).shape) + jnp.broadcast_to(self.action_bias.value, self.policy_net(observation).shape)", key="call-applies-scaling", self_class=PH + "DeterministicTanhPolicy")
+        for cq in (PH + "DeterministicTanhPolicy", PH + "GaussianTanhPolicy"):
+            init = repo.method(cq, "__init__", inherited=False)[1]
+            mi = repo.cls(cq)._module
+            vals = {}
+            init._module = mi
+            icfg = nf.cfg_of(init)
+            for n_ in icfg.nodes:
+                n = n_.ast
+                if n_.kind == "stmt" and isinstance(n, ast.Assign) and isinstance(n.targets[0], ast.Attribute) and (dotted(n.targets[0]) or "").startswith("self.action_"):
+                    vals[n.targets[0].attr] = (n.value, n_.id)
+            sc = Scope(icfg, mi, {"action_space": Poly.atom("action_space")}, cq)
+            for attr, spec in (("action_scale", "nnx.Variable(jnp.array((action_space.high - action_space.low) / 2.0))"), ("action_bias", "nnx.Variable(jnp.array((action_space.high + action_space.low) / 2.0))")):
+                got = nf.poly(vals[attr][0], sc, vals[attr][1]) if attr in vals else None
+                want = nf.poly(parse_expr(spec), Scope(None, mi, {"action_space": Poly.atom("action_space")}, cq), None)
+                ok = got is not None and got == want
+                ck.ob("R3-tanh-head", f"{cq}.__init__", attr, ok, f"{attr} = {got.canon()[:100] if got is not None else None}", "" if ok else f"must be {want.canon()}: otherwise tanh(y)*scale+bias leaves [low, high]", loc(mi, init))
+    ck.guard(_section_5)
+    def _section_6():
+        # wrappers that reach the tanh head
+        for cq, meth, spec in (("rl_blox.blox.embedding.sale.ActorSALE", "__call__", None), ("rl_blox.blox.embedding.model_based_encoder.DeterministicPolicyWithEncoder", "__call__", "self.policy(self.encoder.encode_zs(observation))")):
+            m = repo.method(cq, meth, inherited=False)
+            ck.need(m is not None, f"{cq}.{meth} not found")
+            rets = [n for n in ast.walk(m[1]) if isinstance(n, ast.Return)]
+            txt = ast.unparse(rets[0].value)
+            ok = txt.startswith("self.policy_net(") if spec is None else txt == spec
+            ck.ob("R3-tanh-head", f"{cq}.{meth}", "ends-in-tanh-policy", ok, f"return {txt}", "" if ok else "the action must be the output of the wrapped tanh policy (nothing applied after the scaling)", loc(repo.cls(cq)._module, m[1]))
+    ck.guard(_section_6)
+
+    def _section_7():
+        # R4 CEM proposal: every candidate lies in [lb, ub]
+        CS = "rl_blox.blox.cross_entropy_method.cem_sample"
+        _cem_sample(ck, repo, nf, CS)
+        CU = "rl_blox.blox.cross_entropy_method.cem_update"
+        fn = repo.func(CU)
+        got = nf.return_poly(CU, _env(fn))
+        ck.need(got.elems is not None and len(got.elems) == 2, f"{CU}: must return (mean, var)")
+        m1 = got.elems[0]
+        avg = sorted(a for a in m1.atoms() if a.startswith("mean(") and "samples" in a)
+        others = sorted(a for a in m1.atoms() if a not in avg and a not in ("alpha", "mean"))
+        if len(avg) != 1 or others:
+            raise AnalysisError(f"{CU}: new mean `{m1.canon()[:120]}` is not a combination of the old mean and one average of candidates (convexity not decidable here)")
+        # affine weights: set the old mean and the average to 1 -> the weights must add up to exactly 1; each weight must be alpha resp. 1 - alpha
+        from fractions import Fraction
+        wsum = Poly({})
+        w = {"mean": Poly({}), avg[0]: Poly({})}
+        for mono, c in m1.terms.items():
+            rest = tuple((a, e) for a, e in mono if a not in w)
+            hit = [a for a, e in mono if a in w]
+            if len(hit) != 1 or any(e != 1 for a, e in mono if a in w):
+                raise AnalysisError(f"{CU}: new mean is not affine in (old mean, candidate average): `{m1.canon()[:120]}`")
+            w[hit[0]] = w[hit[0]] + Poly({rest: c})
+        al = Poly.atom("alpha", {"alpha"}, {"alpha"})
+        ok = (w["mean"] - al).is_zero() and (w[avg[0]] - (Poly.const(1) - al)).is_zero()
+        ck.ob("R5-planning-chain", CU, "convex-mean", ok, f"mean' = ({w['mean'].canon()})*mean + ({w[avg[0]].canon()})*{avg[0][:60]}",
+              "" if ok else "the weights of the old mean and of the candidate average must be alpha and 1 - alpha (non-negative, summing to one): otherwise the new mean can leave the box spanned by in-bounds candidates", loc(fn._module, fn))
+        # R5 PETS chain
+        q = "rl_blox.algorithm.pets._init_mpc_optimizer_cem"
         fn = repo.func(q)
-        got = nf.return_poly(q, _env(fn))
-        a = got.single_atom() or ""
-        m = nf.meta.get(a, {})
-        a3 = [x.canon() for x in m.get("args", [])]
-        ok = m.get("fn") == "clip" and len(a3) == 3 and a3[2] == "action_high" and "action_low" in a3[:2]
-        ck.ob("R1-clip-domination", q, "returns-clip(low,high)", ok, f"return {a[:120]}", "" if ok else "the returned action is not clip(., action_low, action_high): it can leave the action space", loc(fn._module, fn))
-    # factories
-    for fq, target, extra in (("rl_blox.algorithm.ddpg.make_sample_actions", SA, ["exploration_noise"]), ("rl_blox.algorithm.td3.make_sample_target_actions", STA, ["exploration_noise", "noise_clip"])):
-        fn = repo.func(fq)
         mi = fn._module
         cfg = nf.cfg_of(fn)
+        sc = Scope(cfg, mi, _env(fn), q)
         rets = [n for n in cfg.nodes if n.kind == "stmt" and isinstance(n.ast, ast.Return)]
-        t = res.resolve(rets[0].ast.value, mi, res.cfg_of(fn), res.cfg_of(fn).node_of(rets[0].ast).id)
-        ok = t is not None and t.qual == target
-        ck.ob("R1-clip-domination", fq, "wraps-sampler", ok, f"returns {short(rets[0].ast.value, 60)}", "" if ok else f"factory must return a partial of {target.rsplit('.', 1)[1]}", loc(mi, fn))
-        if not ok:
-            continue
-        sc = Scope(cfg, mi, _env(fn), fq)
-        got = [nf.poly(a, sc, rets[0].id).canon() for a in t.prefix]
-        want = [nf.poly(parse_expr(x), Scope(None, mi, _env(fn), fq), None).canon() for x in ["action_space.low", "action_space.high", "0.5 * (action_space.high - action_space.low)"] + extra]
-        ok = got == want
-        ck.ob("R1-clip-domination", fq, "bound-arguments", ok, f"partial({target.rsplit('.', 1)[1]}, {', '.join(got)[:140]})",
-              "" if ok else f"must bind (low, high, 0.5*(high-low), {', '.join(extra)}) in this order: got {got}", loc(mi, rets[0].ast))
-    # loops: provenance of the env.step argument
-    for lq in LOOPS:
-        L = find_env_loop(repo, lq)
-        cfg, mi = L.cfg, L.mi
-        arg = strip_wrappers(L.step_call.args[0])
-        ck.need(isinstance(arg, ast.Name), f"{lq}: env.step argument is not a variable")
-        ds = cfg.defs_of(L.step_node, arg.id)
-        ck.need(ds, f"{lq}: action has no definition")
-        # follow value-preserving wrappers and single-definition locals to the producing call
-        work, ds2, seen_d = list(ds), [], set()
-        while work:
-            d = work.pop()
-            if (d.node, d.name) in seen_d:
+        rv = rets[0].ast.value
+        ck.need(isinstance(rv, ast.Tuple) and len(rv.elts) == 2, f"{q}: must return (sample_fn, update_fn)")
+        rcfg = res.cfg_of(fn)
+        at = rcfg.node_of(rets[0].ast).id
+        ts, tu = res.resolve(rv.elts[0], mi, rcfg, at), res.resolve(rv.elts[1], mi, rcfg, at)
+        ok = ts is not None and ts.qual == CS and tu is not None and tu.qual == CU
+        if ts is None or tu is None:
+            raise AnalysisError(f"{q}: the returned planner functions `{short(rv, 60)}` cannot be resolved (unrecognised form)")
+        ck.ob("R5-planning-chain", q, "sample/update-functions", ok, f"({ts.qual if ts else None}, {tu.qual if tu else None})", "" if ok else "PETS must plan with cem_sample / cem_update", loc(mi, fn))
+        if ok:
+            kws = {k: nf.poly(v, sc, rets[0].id).canon() for k, v in ts.kwargs.items()}
+            want = {"n_population": "n_samples", "lb": "vstack((action_space.low))" , "ub": "vstack((action_space.high))"}
+            lbv, ubv = kws.get("lb", ""), kws.get("ub", "")
+            okb = "action_space.low" in lbv and "action_space.high" not in lbv and "action_space.high" in ubv and "action_space.low" not in ubv and lbv.startswith("vstack(") and ubv.startswith("vstack(")
+            if not okb and not ("action_space.high" in lbv and "action_space.low" not in lbv) and not ("action_space.low" in ubv and "action_space.high" not in ubv):
+                raise AnalysisError(f"{q}: bounds handed to the CEM sampler (`{lbv[:60]}` / `{ubv[:60]}`) are built in a way this check does not follow")
+            ck.ob("R5-planning-chain", q, "bounds-from-action-space", okb, f"lb = {lbv[:60]}, ub = {ubv[:60]}", "" if okb else "lb / ub must be action_space.low / .high stacked over the horizon (not swapped)", loc(mi, fn))
+            ukw = {k: nf.poly(v, sc, rets[0].id).canon() for k, v in tu.kwargs.items()}
+            oka = set(ukw) == {"n_elite", "alpha"} and ukw["alpha"] == "alpha"
+            ck.ob("R5-planning-chain", q, "update-arguments", oka, f"{ukw}", "" if oka else "cem_update must receive n_elite and alpha", loc(mi, fn))
+    ck.guard(_section_7)
+    def _section_8():
+        # mpc_action
+        q = "rl_blox.algorithm.pets.mpc_action"
+        fn = repo.func(q)
+        mi = fn._module
+        from ..sympath import enumerate_paths, PathEval
+        cfgm = nf.cfg_of(fn)
+        retn = [n for n in cfgm.nodes if n.kind == "stmt" and isinstance(n.ast, ast.Return)]
+        ck.need(len(retn) == 1, f"{q}: expected one return")
+        nfm = NF(repo, inline_depth=1, inline_calls=False)
+        envm = _env(fn)
+        sigs = set()
+        for pth in enumerate_paths(cfgm, cfgm.entry, {retn[0].id}):
+            pe = PathEval(nfm, cfgm, mi, q, envm).run(pth[:-1])
+            rvp = pe.ev(retn[0].ast.value)
+            rv = rvp.canon() if rvp.single_atom() is not None else "<compound> " + rvp.canon()
+            prev = pe.store.get("state.prev_plan")
+            sigs.add((rv, prev.canon() if prev is not None else None))
+        oks, okp = True, True
+        init_forms = set()
+        for rv, prev in sigs:
+            # returned action: first step of the optimiser's result
+            if not (rv.startswith("optimize_fn(") and rv.endswith(")[0]")):
+                oks = False
                 continue
-            seen_d.add((d.node, d.name))
-            if d.kind == "unpack" and d.value is not None and d.path:
-                pv = _project_expr(d.value, d.path)
-                if pv is not None:
-                    d = Def(d.node, d.name, "assign", pv, ())
-            v = strip_wrappers(d.value) if d.value is not None else None
-            if isinstance(v, ast.Name) and d.kind == "assign":
-                inner = cfg.defs_of(d.node, v.id)
-                if inner and all(x.kind in ("assign", "unpack") for x in inner):
-                    work += inner
-                    continue
-            ds2.append(d)
-        for d in ds2:
-            v = strip_wrappers(d.value) if d.value is not None else None
-            where = loc(mi, cfg.nodes[d.node].ast)
-            if isinstance(v, ast.Call) and dotted(v.func) == f"{L.env}.action_space.sample":
-                ck.ob("R1-clip-domination", lq, "step-arg:space-sample", True, f"{arg.id} = {short(d.value, 60)}", "", where)
-                continue
-            ok, why = False, "the action passed to env.step is neither the seeded space sample nor the clipped sampler's result"
-            if isinstance(v, ast.Call):
-                t = res.resolve(v.func, mi, cfg, d.node)
-                if t is not None and t.qual == SA:
-                    fac = getattr(t, "factory", None)
-                    if fac is not None and fac[0] == "rl_blox.algorithm.ddpg.make_sample_actions":
-                        a0 = fac[1].args[0] if fac[1].args else None
-                        ok = a0 is not None and ast.unparse(a0) == f"{L.env}.action_space"
-                        why = "" if ok else f"the sampler is built for `{ast.unparse(a0) if a0 is not None else None}`, not for {L.env}.action_space"
-                    else:
-                        why = "sample_actions is not bound through make_sample_actions(env.action_space, ...)"
-            ck.ob("R1-clip-domination", lq, "step-arg:clipped-sampler", ok, f"{arg.id} = {short(d.value, 70)}", why, where)
-        # no redefinition of the action between sampler and step is implied by reaching definitions
-    ck.floor("continuous-loops", len(LOOPS), 5)
-    # PETS loop
-    L = find_env_loop(repo, "rl_blox.algorithm.pets.train_pets")
-    arg = strip_wrappers(L.step_call.args[0])
-    def _leaves(e, at, depth=0):
-        e = strip_wrappers(e)
-        if depth > 8:
-            return [(e, at)]
-        if isinstance(e, ast.IfExp):
-            return _leaves(e.body, at, depth + 1) + _leaves(e.orelse, at, depth + 1)
-        if isinstance(e, ast.Name):
-            out_ = []
-            for d_ in L.cfg.defs_of(at, e.id):
-                v_ = _project_expr(d_.value, d_.path) if d_.kind == "unpack" and d_.value is not None else d_.value
-                if d_.kind in ("assign", "unpack") and v_ is not None:
-                    out_ += _leaves(v_, d_.node, depth + 1)
-                else:
-                    out_.append((e, at))
-            return out_
-        return [(e, at)]
-    scp = Scope(L.cfg, L.mi, {"env": Poly.atom("env")}, L.qual)
-    for e_, at_ in _leaves(arg, L.step_node):
-        ok = False
-        if isinstance(e_, ast.Call) and isinstance(e_.func, ast.Attribute) and e_.func.attr == "sample" and not e_.args:
-            ok = nf.poly(e_.func.value, scp, at_).canon() in (f"{L.env}.action_space", "env.action_space")
-        elif isinstance(e_, ast.Call):
-            t_ = res.resolve(e_.func, L.mi, L.cfg, at_)
-            ok = t_ is not None and t_.qual == "rl_blox.algorithm.pets.mpc_action"
-        ck.ob("R5-planning-chain", L.qual, "step-arg", ok, f"{arg.id} <- {short(e_, 70)}", "" if ok else "PETS must execute the space sample (warm-up) or the planner's action", loc(L.mi, e_))
-
-    # R3 tanh heads
-    PH = "rl_blox.blox.function_approximator.policy_head."
-    formula(ck, repo, nf, "R3-tanh-head", "scale_output", "nnx.tanh(y) * jnp.broadcast_to(self.action_scale.value, y.shape) + jnp.broadcast_to(self.action_bias.value, y.shape)", self_class=PH + "DeterministicTanhPolicy")
-    formula(ck, repo, nf, "R3-tanh-head", "__call__", "nnx.tanh(self.policy_net(observation)) * jnp.broadcast_to(self.action_scale.value, self.policy_net(observation).shape) + jnp.broadcast_to(self.action_bias.value, self.policy_net(observation).shape)", key="call-applies-scaling", self_class=PH + "DeterministicTanhPolicy")
-    for cq in (PH + "DeterministicTanhPolicy", PH + "GaussianTanhPolicy"):
-        init = repo.method(cq, "__init__", inherited=False)[1]
-        mi = repo.cls(cq)._module
-        vals = {}
-        init._module = mi
-        icfg = nf.cfg_of(init)
-        for n_ in icfg.nodes:
-            n = n_.ast
-            if n_.kind == "stmt" and isinstance(n, ast.Assign) and isinstance(n.targets[0], ast.Attribute) and (dotted(n.targets[0]) or "").startswith("self.action_"):
-                vals[n.targets[0].attr] = (n.value, n_.id)
-        sc = Scope(icfg, mi, {"action_space": Poly.atom("action_space")}, cq)
-        for attr, spec in (("action_scale", "nnx.Variable(jnp.array((action_space.high - action_space.low) / 2.0))"), ("action_bias", "nnx.Variable(jnp.array((action_space.high + action_space.low) / 2.0))")):
-            got = nf.poly(vals[attr][0], sc, vals[attr][1]) if attr in vals else None
-            want = nf.poly(parse_expr(spec), Scope(None, mi, {"action_space": Poly.atom("action_space")}, cq), None)
-            ok = got is not None and got == want
-            ck.ob("R3-tanh-head", f"{cq}.__init__", attr, ok, f"{attr} = {got.canon()[:100] if got is not None else None}", "" if ok else f"must be {want.canon()}: otherwise tanh(y)*scale+bias leaves [low, high]", loc(mi, init))
-    # wrappers that reach the tanh head
-    for cq, meth, spec in (("rl_blox.blox.embedding.sale.ActorSALE", "__call__", None), ("rl_blox.blox.embedding.model_based_encoder.DeterministicPolicyWithEncoder", "__call__", "self.policy(self.encoder.encode_zs(observation))")):
-        m = repo.method(cq, meth, inherited=False)
-        ck.need(m is not None, f"{cq}.{meth} not found")
-        rets = [n for n in ast.walk(m[1]) if isinstance(n, ast.Return)]
-        txt = ast.unparse(rets[0].value)
-        ok = txt.startswith("self.policy_net(") if spec is None else txt == spec
-        ck.ob("R3-tanh-head", f"{cq}.{meth}", "ends-in-tanh-policy", ok, f"return {txt}", "" if ok else "the action must be the output of the wrapped tanh policy (nothing applied after the scaling)", loc(repo.cls(cq)._module, m[1]))
-
-    # R4 CEM proposal: every candidate lies in [lb, ub]
-    CS = "rl_blox.blox.cross_entropy_method.cem_sample"
-    _cem_sample(ck, repo, nf, CS)
-    CU = "rl_blox.blox.cross_entropy_method.cem_update"
-    fn = repo.func(CU)
-    got = nf.return_poly(CU, _env(fn))
-    ck.need(got.elems is not None and len(got.elems) == 2, f"{CU}: must return (mean, var)")
-    m1 = got.elems[0]
-    avg = sorted(a for a in m1.atoms() if a.startswith("mean(") and "samples" in a)
-    others = sorted(a for a in m1.atoms() if a not in avg and a not in ("alpha", "mean"))
-    if len(avg) != 1 or others:
-        raise AnalysisError(f"{CU}: new mean `{m1.canon()[:120]}` is not a combination of the old mean and one average of candidates (convexity not decidable here)")
-    # affine weights: set the old mean and the average to 1 -> the weights must add up to exactly 1; each weight must be alpha resp. 1 - alpha
-    from fractions import Fraction
-    wsum = Poly({})
-    w = {"mean": Poly({}), avg[0]: Poly({})}
-    for mono, c in m1.terms.items():
-        rest = tuple((a, e) for a, e in mono if a not in w)
-        hit = [a for a, e in mono if a in w]
-        if len(hit) != 1 or any(e != 1 for a, e in mono if a in w):
-            raise AnalysisError(f"{CU}: new mean is not affine in (old mean, candidate average): `{m1.canon()[:120]}`")
-        w[hit[0]] = w[hit[0]] + Poly({rest: c})
-    al = Poly.atom("alpha", {"alpha"}, {"alpha"})
-    ok = (w["mean"] - al).is_zero() and (w[avg[0]] - (Poly.const(1) - al)).is_zero()
-    ck.ob("R5-planning-chain", CU, "convex-mean", ok, f"mean' = ({w['mean'].canon()})*mean + ({w[avg[0]].canon()})*{avg[0][:60]}",
-          "" if ok else "the weights of the old mean and of the candidate average must be alpha and 1 - alpha (non-negative, summing to one): otherwise the new mean can leave the box spanned by in-bounds candidates", loc(fn._module, fn))
-    # R5 PETS chain
-    q = "rl_blox.algorithm.pets._init_mpc_optimizer_cem"
-    fn = repo.func(q)
-    mi = fn._module
-    cfg = nf.cfg_of(fn)
-    sc = Scope(cfg, mi, _env(fn), q)
-    rets = [n for n in cfg.nodes if n.kind == "stmt" and isinstance(n.ast, ast.Return)]
-    rv = rets[0].ast.value
-    ck.need(isinstance(rv, ast.Tuple) and len(rv.elts) == 2, f"{q}: must return (sample_fn, update_fn)")
-    rcfg = res.cfg_of(fn)
-    at = rcfg.node_of(rets[0].ast).id
-    ts, tu = res.resolve(rv.elts[0], mi, rcfg, at), res.resolve(rv.elts[1], mi, rcfg, at)
-    ok = ts is not None and ts.qual == CS and tu is not None and tu.qual == CU
-    ck.ob("R5-planning-chain", q, "sample/update-functions", ok, f"({ts.qual if ts else None}, {tu.qual if tu else None})", "" if ok else "PETS must plan with cem_sample / cem_update", loc(mi, fn))
-    if ok:
-        kws = {k: nf.poly(v, sc, rets[0].id).canon() for k, v in ts.kwargs.items()}
-        want = {"n_population": "n_samples", "lb": "vstack((action_space.low))" , "ub": "vstack((action_space.high))"}
-        lbv, ubv = kws.get("lb", ""), kws.get("ub", "")
-        okb = "action_space.low" in lbv and "action_space.high" not in lbv and "action_space.high" in ubv and "action_space.low" not in ubv and lbv.startswith("vstack(") and ubv.startswith("vstack(")
-        if not okb and not ("action_space.high" in lbv and "action_space.low" not in lbv) and not ("action_space.low" in ubv and "action_space.high" not in ubv):
-            raise AnalysisError(f"{q}: bounds handed to the CEM sampler (`{lbv[:60]}` / `{ubv[:60]}`) are built in a way this check does not follow")
-        ck.ob("R5-planning-chain", q, "bounds-from-action-space", okb, f"lb = {lbv[:60]}, ub = {ubv[:60]}", "" if okb else "lb / ub must be action_space.low / .high stacked over the horizon (not swapped)", loc(mi, fn))
-        ukw = {k: nf.poly(v, sc, rets[0].id).canon() for k, v in tu.kwargs.items()}
-        oka = set(ukw) == {"n_elite", "alpha"} and ukw["alpha"] == "alpha"
-        ck.ob("R5-planning-chain", q, "update-arguments", oka, f"{ukw}", "" if oka else "cem_update must receive n_elite and alpha", loc(mi, fn))
-    # mpc_action
-    q = "rl_blox.algorithm.pets.mpc_action"
-    fn = repo.func(q)
-    mi = fn._module
-    from ..sympath import enumerate_paths, PathEval
-    cfgm = nf.cfg_of(fn)
-    retn = [n for n in cfgm.nodes if n.kind == "stmt" and isinstance(n.ast, ast.Return)]
-    ck.need(len(retn) == 1, f"{q}: expected one return")
-    nfm = NF(repo, inline_depth=1, inline_calls=False)
-    envm = _env(fn)
-    sigs = set()
-    for pth in enumerate_paths(cfgm, cfgm.entry, {retn[0].id}):
-        pe = PathEval(nfm, cfgm, mi, q, envm).run(pth[:-1])
-        rvp = pe.ev(retn[0].ast.value)
-        rv = rvp.canon() if rvp.single_atom() is not None else "<compound> " + rvp.canon()
-        prev = pe.store.get("state.prev_plan")
-        sigs.add((rv, prev.canon() if prev is not None else None))
-    oks, okp = True, True
-    init_forms = set()
-    for rv, prev in sigs:
-        # returned action: first step of the optimiser's result
-        if not (rv.startswith("optimize_fn(") and rv.endswith(")[0]")):
-            oks = False
-            continue
-        a = nfm.meta.get(rv[:-3], {})
-        init = a["args"][1].canon() if len(a.get("args", [])) > 1 else "?"
-        init_forms.add(init)
-        want_prev = f"concatenate(({rv[:-3]}[1:], config.avg_act[jax.numpy.newaxis]), axis=0)"
-        if prev != want_prev:
-            okp = False
-    ck.ob("R5-planning-chain", q, "returns-first-plan-step", oks, f"return {sorted(s_[0][:60] for s_ in sigs)}", "" if oks else "the executed action must be the first step of the optimised plan", loc(mi, fn))
-    good_init = {"state.prev_plan", "broadcast_to(config.avg_act, state.prev_plan.shape)"}
-    if not oks:
-        return_only = True
-    oki = init_forms <= good_init and (len(init_forms) >= 1 or not oks)
-    if oks and not oki and not any("avg_act" in f or "prev_plan" in f for f in init_forms):
-        raise AnalysisError(f"{q}: initial plan `{sorted(init_forms)}` not recognised")
-    if oks and not okp and any(p_ is not None and "concatenate" not in p_ for _, p_ in sigs):
-        raise AnalysisError(f"{q}: stored plan `{[p_ for _, p_ in sigs][:1]}` not recognised")
-    if oks:
-      ck.ob("R5-planning-chain", q, "plan-shift-and-padding", oki and okp, f"initial plan {sorted(init_forms)}; prev_plan' = shifted result padded with avg_act: {okp}", "" if oki and okp else "initial plan and padding must be the in-box mid-point avg_act, the plan the optimiser's result", loc(mi, fn))
-    q = "rl_blox.algorithm.pets._pets_optimize"
-    fn = repo.func(q)
-    rets = [n for n in ast.walk(fn) if isinstance(n, ast.Return)]
-    ok = len(rets) == 1 and ast.unparse(rets[0].value) == "mean"
-    cfg = nf.cfg_of(fn)
-    okm = False
-    for n in cfg.nodes:
-        if n.kind == "stmt" and isinstance(n.ast, ast.Assign) and isinstance(n.ast.value, ast.Call) and dotted(n.ast.value.func) == "_pets_opt_iter" and isinstance(n.ast.targets[0], ast.Tuple):
-            okm = dotted(n.ast.targets[0].elts[0]) == "mean"
-    ck.ob("R5-planning-chain", q, "returns-cem-mean", ok and okm, f"return {ast.unparse(rets[0].value) if rets else None}", "" if ok and okm else "the optimiser must return the CEM mean (convex combination of in-box elites)", loc(fn._module, fn))
-    q = "rl_blox.algorithm.pets._pets_opt_iter"
-    fn = repo.func(q)
-    txt = "\n".join(ast.unparse(s) for s in fn.body)
-    ok = "actions = config.sample_fn(mean, var, sampling_key)" in txt and "mean, var = config.update_fn(actions, expected_returns, mean, var)" in txt
-    ck.ob("R5-planning-chain", q, "sample-then-update", ok, "actions = sample_fn(mean, var, key); mean, var = update_fn(actions, returns, mean, var)", "" if ok else "candidates must come from sample_fn and the mean from update_fn on those candidates", loc(fn._module, fn))
-    # train_pets config: avg_act mid-point, init_var, bounds from the same env
-    q = "rl_blox.algorithm.pets.train_pets"
-    fn = repo.func(q)
-    mi = fn._module
-    cfgc = [c for c in ast.walk(fn) if isinstance(c, ast.Call) and dotted(c.func) == "PETSMPCConfig"]
-    ck.need(len(cfgc) == 1, f"{q}: PETSMPCConfig construction not found")
-    kw = {k.arg: k.value for k in cfgc[0].keywords}
-    cfgt = nf.cfg_of(fn)
-    at_cfg = cfgt.node_of(cfgc[0]).id
-    sc = Scope(cfgt, mi, {"env": Poly.atom("env")}, q)
-    got = nf.poly(kw["avg_act"], sc, at_cfg) if "avg_act" in kw else None
-    want = nf.poly(parse_expr("jnp.asarray(0.5 * (env.action_space.high + env.action_space.low))"), Scope(None, mi, {"env": Poly.atom("env")}, q), None)
-    ok = got is not None and got == want
-    ck.ob("R5-planning-chain", q, "mid-point", ok, f"avg_act = {got.canon()[:80] if got is not None else None}", "" if ok else "avg_act must be the mid-point 0.5*(high+low) of the action space", loc(mi, cfgc[0]))
-    init = [c for c in ast.walk(fn) if isinstance(c, ast.Call) and dotted(c.func) == "_init_mpc_optimizer_cem"]
-    ok = len(init) == 1 and init[0].args and nf.poly(init[0].args[0], sc, cfgt.node_of(init[0]).id).canon() == "env.action_space"
-    ck.ob("R5-planning-chain", q, "optimizer-space", ok, f"{short(init[0], 70) if init else None}", "" if ok else "the CEM bounds must come from env.action_space", loc(mi, fn))
+            a = nfm.meta.get(rv[:-3], {})
+            init = a["args"][1].canon() if len(a.get("args", [])) > 1 else "?"
+            init_forms.add(init)
+            want_prev = f"concatenate(({rv[:-3]}[1:], config.avg_act[jax.numpy.newaxis]), axis=0)"
+            if prev != want_prev:
+                okp = False
+        ck.ob("R5-planning-chain", q, "returns-first-plan-step", oks, f"return {sorted(s_[0][:60] for s_ in sigs)}", "" if oks else "the executed action must be the first step of the optimised plan", loc(mi, fn))
+        good_init = {"state.prev_plan", "broadcast_to(config.avg_act, state.prev_plan.shape)"}
+        if not oks:
+            return_only = True
+        oki = init_forms <= good_init and (len(init_forms) >= 1 or not oks)
+        if oks and not oki and not any("avg_act" in f or "prev_plan" in f for f in init_forms):
+            raise AnalysisError(f"{q}: initial plan `{sorted(init_forms)}` not recognised")
+        if oks and not okp and any(p_ is not None and "concatenate" not in p_ for _, p_ in sigs):
+            raise AnalysisError(f"{q}: stored plan `{[p_ for _, p_ in sigs][:1]}` not recognised")
+        if oks:
+          ck.ob("R5-planning-chain", q, "plan-shift-and-padding", oki and okp, f"initial plan {sorted(init_forms)}; prev_plan' = shifted result padded with avg_act: {okp}", "" if oki and okp else "initial plan and padding must be the in-box mid-point avg_act, the plan the optimiser's result", loc(mi, fn))
+        q = "rl_blox.algorithm.pets._pets_optimize"
+        fn = repo.func(q)
+        rets = [n for n in ast.walk(fn) if isinstance(n, ast.Return)]
+        ok = len(rets) == 1 and ast.unparse(rets[0].value) == "mean"
+        cfg = nf.cfg_of(fn)
+        okm = False
+        for n in cfg.nodes:
+            if n.kind == "stmt" and isinstance(n.ast, ast.Assign) and isinstance(n.ast.value, ast.Call) and dotted(n.ast.value.func) == "_pets_opt_iter" and isinstance(n.ast.targets[0], ast.Tuple):
+                okm = dotted(n.ast.targets[0].elts[0]) == "mean"
+        ck.ob("R5-planning-chain", q, "returns-cem-mean", ok and okm, f"return {ast.unparse(rets[0].value) if rets else None}", "" if ok and okm else "the optimiser must return the CEM mean (convex combination of in-box elites)", loc(fn._module, fn))
+        q = "rl_blox.algorithm.pets._pets_opt_iter"
+        fn = repo.func(q)
+        txt = "\n".join(ast.unparse(s) for s in fn.body)
+        ok = "actions = config.sample_fn(mean, var, sampling_key)" in txt and "mean, var = config.update_fn(actions, expected_returns, mean, var)" in txt
+        ck.ob("R5-planning-chain", q, "sample-then-update", ok, "actions = sample_fn(mean, var, key); mean, var = update_fn(actions, returns, mean, var)", "" if ok else "candidates must come from sample_fn and the mean from update_fn on those candidates", loc(fn._module, fn))
+    ck.guard(_section_8)
+    def _section_9():
+        # train_pets config: avg_act mid-point, init_var, bounds from the same env
+        q = "rl_blox.algorithm.pets.train_pets"
+        fn = repo.func(q)
+        mi = fn._module
+        cfgc = [c for c in ast.walk(fn) if isinstance(c, ast.Call) and dotted(c.func) == "PETSMPCConfig"]
+        ck.need(len(cfgc) == 1, f"{q}: PETSMPCConfig construction not found")
+        kw = {k.arg: k.value for k in cfgc[0].keywords}
+        cfgt = nf.cfg_of(fn)
+        at_cfg = cfgt.node_of(cfgc[0]).id
+        sc = Scope(cfgt, mi, {"env": Poly.atom("env")}, q)
+        got = nf.poly(kw["avg_act"], sc, at_cfg) if "avg_act" in kw else None
+        want = nf.poly(parse_expr("jnp.asarray(0.5 * (env.action_space.high + env.action_space.low))"), Scope(None, mi, {"env": Poly.atom("env")}, q), None)
+        ok = got is not None and got == want
+        ck.ob("R5-planning-chain", q, "mid-point", ok, f"avg_act = {got.canon()[:80] if got is not None else None}", "" if ok else "avg_act must be the mid-point 0.5*(high+low) of the action space", loc(mi, cfgc[0]))
+        init = [c for c in ast.walk(fn) if isinstance(c, ast.Call) and dotted(c.func) == "_init_mpc_optimizer_cem"]
+        ok = len(init) == 1 and init[0].args and nf.poly(init[0].args[0], sc, cfgt.node_of(init[0]).id).canon() == "env.action_space"
+        ck.ob("R5-planning-chain", q, "optimizer-space", ok, f"{short(init[0], 70) if init else None}", "" if ok else "the CEM bounds must come from env.action_space", loc(mi, fn))
+    ck.guard(_section_9)
 
 
 _D, _T, _H, _C, _P = "rl_blox/algorithm/ddpg.py", "rl_blox/algorithm/td3.py", "rl_blox/blox/function_approximator/policy_head.py", "rl_blox/blox/cross_entropy_method.py", "rl_blox/algorithm/pets.py"
